@@ -89,6 +89,10 @@ def units_rules(run, db):
 
 def freespace_obligations(run, db, rule):
     """Shared with C02: the exponent of each factor is -i pi lambda z k^2 in consistent units."""
+    # decided on values first (2x3, 3x2, 2x2, 1x4 grids); the reading of outer(tfy, tfx) below defers to it
+    from .c02values import freespace_value_rules
+    n_val = run.group(freespace_value_rules, run, db, rule)
+    db._freespace_values = n_val
     it, dom = K.mk(db, {})
 
     def fftfreq_hook(dotted, args, kwargs, node, orig=dom.call_ext):
@@ -112,6 +116,9 @@ def freespace_obligations(run, db, rule):
                 run.finding(rule, f.qual, 'store into a transfer-function factor', 'samples of the transfer function are overwritten with %r after exp(): the kernel no longer has unit modulus everywhere '
                             '(energy is not conserved, -z does not undo z)' % (e['value'],), f.loc(e['node']))
         if not isinstance(v, Mat):
+            if n_val:
+                run.info('angular_spectrum_transfer_function is not read as outer(tfy, tfx) (%r); its samples were decided on values (%d grids)' % (v, n_val))
+                return dom
             raise AnalysisError('angular_spectrum_transfer_function does not return outer(tfy, tfx): %r' % (v,))
         ea = exp_arg(dom, v.elem)
         if ea is None:
@@ -226,6 +233,7 @@ def check(run, db, tier):
     run.group(FS.run_fixed, run, db, 'C03.kernel', 'unfocus_fixed_sampling', +1, par)
     run.group(units_rules, run, db)
     run.group(freespace_obligations, run, db, 'C03.units')
+    run.forgive('freespace_value_rules', ['freespace_obligations'])
     run.group(wavefront_rules, run, db)
     from .c02 import ctor_role_rules
     run.group(ctor_role_rules, run, db, 'C03.wrapper')
